@@ -29,6 +29,8 @@ def check(ctx):
     import symfc.utils.utils_O3 as u3
 
     rng = np.random.default_rng(ctx.seed)
+    from o1 import check_o1
+    check_o1(ctx, "C09", np.random.default_rng(ctx.seed + 1001))   # the exported first-order basis
     ctx.rule = ("G-tables: c_pt and C_trans columns for all small groups, orders 2-4, with/without cutoff relation; cells: low-symmetry and centred cells, both eigen paths "
                 "(threshold hook below and above the projector size, sub-block size 5), cutoff none/real; G-mat with repeated blocks. Non-trivial: at least 2 columns")
     for name, tp in tables(4 if ctx.quick else 6, rng):
